@@ -182,6 +182,19 @@ func c20Quote(a string) string {
 func (s *c20Sess) run(tool string, stdin []byte, env []string, args ...string) c20Res {
 	ctx, cancel := context.WithTimeout(context.Background(), 60*time.Second)
 	defer cancel()
+	// The output path is never pristine: a longer, stale previous output is already there (a tool
+	// that does not truncate its output would leave the old tail behind the new artifact).
+	for i := 0; i+1 < len(args); i++ {
+		if args[i] == "-o" && args[i+1] != "-" {
+			p := args[i+1]
+			if !filepath.IsAbs(p) {
+				p = filepath.Join(s.dir, p)
+			}
+			if _, err := os.Stat(p); os.IsNotExist(err) {
+				os.WriteFile(p, bytes.Repeat([]byte{0xEE}, 200<<10), 0644)
+			}
+		}
+	}
 	cmd := exec.CommandContext(ctx, filepath.Join(c20ToolsDir, tool), args...)
 	cmd.Dir = s.dir
 	cmd.Env = append([]string{"PATH=/usr/bin:/bin", "HOME=" + s.dir, "TMPDIR=" + s.dir, "LANG=C"}, env...)
